@@ -34,6 +34,16 @@ type op struct {
 	hasWant bool
 }
 
+// call runs f; a panic (a decoder fed with a value another goroutine overwrote) is a wrong result
+func call(f func() string) (res string) {
+	defer func() {
+		if e := recover(); e != nil {
+			res = fmt.Sprint("panic: ", e)
+		}
+	}()
+	return f()
+}
+
 func rep(b byte, n int) []byte { return bytes.Repeat([]byte{b}, n) }
 
 func mkTx(k int) *transaction.Transaction {
@@ -284,7 +294,7 @@ func main() {
 			defer wg.Done()
 			for it := 0; it < iters; it++ {
 				i := (it*7 + g*13) % len(ops)
-				if ops[i].f() != want[i] {
+				if call(ops[i].f) != want[i] {
 					mu.Lock()
 					if bad == "" {
 						bad = ops[i].name
